@@ -144,6 +144,11 @@ def gen_cases(rng, tier):
         for pats in itertools.product(PATTERNS, repeat=3):
             rows = [_pset(5 + r, [pats[r], "value"], base=7 + 10 * r) for r in range(3)]
             cases.append({"in": [OP_MVAL, cols, [], rows, [0]], "kind": "multivalues3"})
+    # row 0 empty, no Python / SQL default anywhere: the statement degenerates to INSERT ... DEFAULT VALUES
+    cases.append({"in": [OP_MVAL, mk_cols([NONE, SERVER]), [], [[], [[1, 41]], [[1, 3], [2, 4]]], [0]],
+                  "kind": "multivalues-empty-first"})
+    cases.append({"in": [OP_MVAL, mk_cols([NONE, SCALAR]), [], [[], [[1, 41]], [[1, 3], [2, 4]]], [0]],
+                  "kind": "multivalues-empty-first"})
     for _ in range(600 if tier == "thorough" else 130):
         ks = [rng.choice(mkinds) for _ in range(3)]
         cols = mk_cols(ks)
@@ -484,7 +489,12 @@ def _check(inp, obs, info):
             problems.append("row count changed by UPDATE")
     else:
         if len(rows) != nbase + len(psets):
-            return "expected %d rows, found %d" % (nbase + len(psets), len(rows))
+            msg = "expected %d rows, found %d" % (nbase + len(psets), len(rows))
+            if (op == OP_MVAL and not keysets[0] and len(rows) == nbase + 1
+                    and all(d[0] in (NONE, SERVER) for _, d in cols)):
+                # row 0 is empty and no column has a Python / SQL default: INSERT ... DEFAULT VALUES, one row
+                return "multivalues-first-row: " + msg
+            return msg
         targets = [(p, rows[nbase + i], None) for i, p in enumerate(psets)]
     omitted_rows = {}
     fired = {}  # per column: how often its default has fired so far (known deviations included)
